@@ -63,7 +63,11 @@ func runC20(c *Ctx) {
 func fieldOfEntry(v ssa.Value, entry ssa.Value, name string) bool {
 	return SliceAny(v, func(r ssa.Value) bool {
 		fv, base := FieldOf(r)
-		return fv != nil && fv.Name() == name && base == entry
+		if fv == nil || fv.Name() != name {
+			return false
+		}
+		// the entry itself, or the parameter of a helper that receives the entry
+		return base == entry || SliceAny(base, func(b ssa.Value) bool { return b == entry })
 	})
 }
 
@@ -144,12 +148,16 @@ func c20Site(c *Ctx, s grpcSite) {
 		okMsg := DerivesOnly(inv.Call.Args[3], false, func(v ssa.Value) bool { return v == ssa.Value(nm) }) && um.Call.Args[0] == ssa.Value(nm)
 		// payload provenance
 		okPay := false
-		src := um.Call.Args[1]
-		if mj, _ := CallOfValue(src); mj != nil && MatchCC(&mj.Call, Spec{"encoding/json", "", "Marshal"}) {
-			okPay = fieldOfEntry(mj.Call.Args[0], s.entry, s.payField)
-		}
-		if ap, _ := CallOfValue(src); ap != nil && ap.Call.IsInvoke() && ap.Call.Method.Name() == "Apply" {
-			okPay = fieldOfEntry(ap.Call.Args[0], s.entry, s.payField)
+		// the JSON handed to UnmarshalJSON: produced here, or by a helper of the package (renderStep(...))
+		for _, rt := range Roots(um.Call.Args[1], false) {
+			for _, src := range ThroughReturns(rt) {
+				if mj, _ := CallOfValue(src); mj != nil && MatchCC(&mj.Call, Spec{"encoding/json", "", "Marshal"}) {
+					okPay = fieldOfEntry(mj.Call.Args[0], s.entry, s.payField)
+				}
+				if ap, _ := CallOfValue(src); ap != nil && ap.Call.IsInvoke() && ap.Call.Method.Name() == "Apply" {
+					okPay = fieldOfEntry(ap.Call.Args[0], s.entry, s.payField)
+				}
+			}
 		}
 		c.Check(okIn && okMsg && okPay, "O20.2", key+":message-built-from-payload", nm.Pos(),
 			fmt.Sprintf("NewMessage(method.GetInputType()): %v; that message is unmarshalled and sent: %v; JSON comes from the entry's %s: %v", okIn, okMsg, s.payField, okPay))
@@ -259,12 +267,25 @@ func c20Site(c *Ctx, s grpcSite) {
 					okCopy = rangedOver(mu.Key, func(m ssa.Value) bool { return fieldOfEntry(m, s.entry, s.mdField) }) &&
 						rangedOver(mu.Value, func(m ssa.Value) bool { return fieldOfEntry(m, s.entry, s.mdField) })
 				}
-			})
-			EachInstr(fn, func(in ssa.Instruction) {
-				if cc := CC(in); cc != nil && cc.IsInvoke() && cc.Method.Name() == "Apply" && len(cc.Args) >= 2 {
-					okTempl = (cc.Args[1] == ssa.Value(mm) || cc.Args[1] == mmVal) && InstrDominates(in, mdn)
+				// maps.Copy(copy, entry.Metadata)
+				if cl, ok := in.(*ssa.Call); ok && isGenericStd(cl, "maps", "Copy") && len(cl.Call.Args) == 2 {
+					if DerivesOnly(cl.Call.Args[0], false, func(v ssa.Value) bool { return v == ssa.Value(mm) }) && fieldOfEntry(cl.Call.Args[1], s.entry, s.mdField) {
+						okCopy = true
+					}
 				}
 			})
+			for _, g2 := range region {
+				EachInstr(g2, func(in ssa.Instruction) {
+					if cc := CC(in); cc != nil && cc.IsInvoke() && cc.Method.Name() == "Apply" && len(cc.Args) >= 2 {
+						if g2 == fn {
+							okTempl = (cc.Args[1] == ssa.Value(mm) || cc.Args[1] == mmVal) && InstrDominates(in, mdn)
+						} else if g2 == mm.Parent() {
+							// copy and rendering live together in a helper that returns the rendered copy
+							okTempl = cc.Args[1] == ssa.Value(mm)
+						}
+					}
+				})
+			}
 		}
 		if cl, _ := CallOfValue(mdArg); cl != nil && MatchCC(&cl.Call, Spec{"maps", "", "Clone"}) {
 			okCopy = fieldOfEntry(cl.Call.Args[0], s.entry, s.mdField)
@@ -491,4 +512,21 @@ func c20Entries(c *Ctx) {
 		checkErrPropagated(c, "O20.6", fk(da)+":decode-error-returned", um)
 	}
 	c.Check(ok, "O20.6", fk(da)+":entry-decoded-fresh-and-copied-whole", da.Pos(), "decodeAmmo unmarshals into a fresh local and calls am.Reset(local.Tag, local.Call, local.Metadata, local.Payload) on the pooled ammo (no field of the previous entry survives)")
+}
+
+
+// isGenericStd: a call of (an instantiation of) the generic standard-library function pkg.name.
+func isGenericStd(cl *ssa.Call, pkg, name string) bool {
+	sc := cl.Call.StaticCallee()
+	if sc == nil {
+		return false
+	}
+	if o := sc.Origin(); o != nil {
+		sc = o
+	}
+	if sc.Name() != name || sc.Pkg == nil {
+		return false
+	}
+	p := sc.Pkg.Pkg.Path()
+	return p == pkg || p == "golang.org/x/exp/"+pkg // the x/exp predecessors of maps / slices
 }
